@@ -1,17 +1,55 @@
-(* C02 - Injector result equals sequential evaluation of the declared graph.  (v1: per-provider facts; the value theorem follows) *)
+(* C02 - Injector result equals sequential evaluation of the declared graph. *)
 From Coq Require Import List Arith Bool.
 Import ListNotations.
-Require Import Sem2 Safe.
+Require Import Sem2 Safe Live Denote GenU GenSound.
 
 (* In every run of a well-synchronised program a provider returns at most once, with one argument vector. *)
-Theorem C02_once : forall p ls s n vs ws, wf p -> run p (init p) ls = Some s ->
+Theorem C02_once : forall p ls s n vs ws, wf p -> Sem2.run p (Sem2.init p) ls = Some s ->
   In (ExitOk n vs) (s_trace s) -> In (ExitOk n ws) (s_trace s) -> vs = ws.
 Proof. intros p ls s n vs ws W R. apply (inv_once p s (run_inv p ls _ _ W (inv_init p) R)). Qed.
 Print Assumptions C02_once.
 
-(* Every value stored for result i of provider n is the application of n to the arguments it was entered with. *)
-Theorem C02_store : forall p ls s n vs i t j it, wf p -> run p (init p) ls = Some s ->
-  In (ExitOk n vs) (s_trace s) -> item_at p t j = Some it -> it_node it = n -> i < it_nrets it ->
-  lookup (n, i) (s_store s) = Some (VApp n i vs).
-Proof. intros p ls s n vs i t j it W R H1 H2 H3 H4. eapply (inv_store p s (run_inv p ls _ _ W (inv_init p) R)); eauto. Qed.
-Print Assumptions C02_store.
+(* Whatever the interleaving, latencies, failures or cancellation: the value stored for result i of a provider that
+   returned is the value the sequential, one-provider-at-a-time evaluator `seq_eval` computes for that variable. *)
+Theorem C02_value : forall p ls s, wf p -> Sem2.run p (Sem2.init p) ls = Some s ->
+  forall n i vs t j it fuel v, In (ExitOk n vs) (s_trace s) -> item_at p t j = Some it -> it_node it = n -> i < it_nrets it ->
+    seq_eval fuel p (n, i) = Some v -> lookup (n, i) (s_store s) = Some v.
+Proof. exact run_value_is_sequential. Qed.
+Print Assumptions C02_value.
+
+(* Two executions under different schedules (and different fault sequences) agree on every value both of them computed:
+   marking providers Async, which only changes the thread structure of the emitted program, cannot change a value. *)
+Theorem C02_schedule_independent : forall p ls1 ls2 s1 s2, wf p ->
+  Sem2.run p (Sem2.init p) ls1 = Some s1 -> Sem2.run p (Sem2.init p) ls2 = Some s2 ->
+  forall n i vs1 vs2 t j it, In (ExitOk n vs1) (s_trace s1) -> In (ExitOk n vs2) (s_trace s2) ->
+    item_at p t j = Some it -> it_node it = n -> i < it_nrets it ->
+    lookup (n, i) (s_store s1) = lookup (n, i) (s_store s2).
+Proof.
+  intros p ls1 ls2 s1 s2 W R1 R2 n i vs1 vs2 t j it H1 H2 Hi Hn Hr.
+  destruct (stored_values_denote p ls1 s1 W R1 n i vs1 t j it H1 Hi Hn Hr) as (L1 & D1).
+  destruct (stored_values_denote p ls2 s2 W R2 n i vs2 t j it H2 Hi Hn Hr) as (L2 & D2).
+  rewrite L1, L2. f_equal. eapply (denotes_fun p W _ _ (le_n _)); eauto.
+Qed.
+Print Assumptions C02_schedule_independent.
+
+(* For ALL declarations the NewGraph model accepts, the emitted program has these properties. *)
+Theorem C02_all_declarations : forall d g, unew_graph d = Gen.OK g ->
+  exists st, Threads.build (unp g) (upool g) (udeps g) (uisasync g) (uargs g) = Some st /\
+  forall ls s, Sem2.run (uprog g st) (Sem2.init (uprog g st)) ls = Some s ->
+    forall n i vs t j it fuel v, In (ExitOk n vs) (s_trace s) -> item_at (uprog g st) t j = Some it -> it_node it = n -> i < it_nrets it ->
+      seq_eval fuel (uprog g st) (n, i) = Some v -> lookup (n, i) (s_store s) = Some v.
+Proof.
+  intros d g H. destruct (gen_sound d g H) as (st & B & W). exists st. split; [exact B|].
+  intros ls s R. apply (run_value_is_sequential _ ls s (wfl_wf _ _ W) R).
+Qed.
+Print Assumptions C02_all_declarations.
+
+(* non-vacuity: the sequential evaluator succeeds on a concrete program and the concurrent run stores that value *)
+Definition ex_prog : prog :=
+  {| p_threads := [[ {| it_node := 1; it_args := [(0,0); (2,0)]; it_waits := [(0,0)]; it_nrets := 1; it_closes := []; it_fallible := false |} ];
+                   [ {| it_node := 0; it_args := [(2,0)]; it_waits := []; it_nrets := 1; it_closes := [(0,0)]; it_fallible := false |} ]];
+     p_argnodes := [2]; p_reterr := false |}.
+Example C02_example : seq_eval 5 ex_prog (1, 0) = Some (VApp 1 0 [VApp 0 0 [VArg 2]; VArg 2]) /\
+  exists s, Sem2.run ex_prog (Sem2.init ex_prog) [LEnter 1; LExitOk 1; LClose 1; LWaitPass 0; LEnter 0; LExitOk 0] = Some s /\
+            lookup (1, 0) (s_store s) = Some (VApp 1 0 [VApp 0 0 [VArg 2]; VArg 2]).
+Proof. split; [vm_compute; reflexivity|]. eexists. split; vm_compute; reflexivity. Qed.
